@@ -9,6 +9,8 @@ use crate::{
 };
 
 use image::RgbaImage;
+use std::collections::btree_map::Entry;
+use std::collections::{BTreeMap, BTreeSet};
 use std::fmt;
 use std::io::Read;
 use std::sync::Arc;
@@ -82,15 +84,15 @@ impl<'a> Cel<'a> {
     }
 }
 
-/// Organizes all Cels into a 2d array.
+/// Organizes all Cels by frame and layer.
 pub(crate) struct CelsData<P> {
-    // Mapping: frame_id -> layer_id -> Option<RawCel>
+    // Mapping: frame_id -> layer_id -> RawCel
     //
-    // The cels are boxed because this table is sparse: a frame's row has a
-    // slot for every layer up to the highest one that has a cel in that frame.
-    // With inline cels (~100 bytes per slot) a sprite with thousands of layers
-    // and frames needed gigabytes for a file of a few hundred kilobytes.
-    data: Vec<Vec<Option<Box<RawCel<P>>>>>,
+    // The frame x layer table is sparse, so each frame only stores the cels it
+    // actually has (ordered by layer). A dense table (a slot per layer up to
+    // the highest one with a cel) needed tens of gigabytes for a file of a few
+    // megabytes with many layers and frames.
+    data: Vec<BTreeMap<u32, RawCel<P>>>,
     num_frames: u32,
 }
 #[derive(Debug, Clone, Copy)]
@@ -114,16 +116,14 @@ where
     fn fmt(&self, f: &mut fmt::Formatter<'_>) -> fmt::Result {
         let mut d = f.debug_map();
         for frame in 0..self.data.len() {
-            for (layer, cel) in self.data[frame].iter().enumerate() {
-                if let Some(ref cel) = cel {
-                    d.entry(
-                        &CelId {
-                            frame: frame as u16,
-                            layer: layer as u32,
-                        },
-                        cel,
-                    );
-                }
+            for (layer, cel) in self.data[frame].iter() {
+                d.entry(
+                    &CelId {
+                        frame: frame as u16,
+                        layer: *layer,
+                    },
+                    cel,
+                );
             }
         }
         d.finish()
@@ -133,8 +133,7 @@ where
 impl<P> CelsData<P> {
     pub(crate) fn new(num_frames: u32) -> Self {
         let mut data = Vec::with_capacity(num_frames as usize);
-        // Initialize with one layer (outer Vec) and zero RawCel (inner Vec).
-        data.resize_with(num_frames as usize, || vec![None]);
+        data.resize_with(num_frames as usize, BTreeMap::new);
         CelsData { data, num_frames }
     }
 
@@ -152,50 +151,33 @@ impl<P> CelsData<P> {
         self.check_valid_frame_id(frame_id)?;
 
         let layer_id = cel.data.layer_index;
-        let min_layers = layer_id as u32 + 1;
-        let layers = &mut self.data[frame_id as usize];
-        if layers.len() < min_layers as usize {
-            layers.resize_with(min_layers as usize, || None);
-        }
-        if layers[layer_id as usize].is_some() {
-            return Err(AsepriteParseError::InvalidInput(format!(
+        match self.data[frame_id as usize].entry(layer_id as u32) {
+            Entry::Occupied(_) => Err(AsepriteParseError::InvalidInput(format!(
                 "Multiple Cels for frame {}, layer {}",
                 frame_id, layer_id
-            )));
+            ))),
+            Entry::Vacant(slot) => {
+                slot.insert(cel);
+                Ok(())
+            }
         }
-        layers[layer_id as usize] = Some(Box::new(cel));
-
-        Ok(())
     }
 
     pub(crate) fn frame_cels(&self, frame_id: u16) -> impl Iterator<Item = (u32, &RawCel<P>)> {
         self.data[frame_id as usize]
             .iter()
-            .enumerate()
-            .filter_map(|(layer_id, cel)| cel.as_deref().map(|c| (layer_id as u32, c)))
+            .map(|(layer_id, cel)| (*layer_id, cel))
     }
 
     // Frame ID must be valid. If Layer ID is out of bounds always returns an
     // empty Vec.
     pub(crate) fn cel(&self, cel_id: CelId) -> Option<&RawCel<P>> {
         let CelId { frame, layer } = cel_id;
-        let layers = &self.data[frame as usize];
-        if (layer as usize) >= layers.len() {
-            None
-        } else {
-            layers[layer as usize].as_deref()
-        }
+        self.data[frame as usize].get(&layer)
     }
 
     pub(crate) fn cel_mut(&mut self, cel_id: &CelId) -> Option<&mut RawCel<P>> {
-        let frame = cel_id.frame;
-        let layer = cel_id.layer;
-        let layers = &mut self.data[frame as usize];
-        if (layer as usize) >= layers.len() {
-            None
-        } else {
-            layers[layer as usize].as_deref_mut()
-        }
+        self.data[cel_id.frame as usize].get_mut(&cel_id.layer)
     }
 }
 
@@ -270,27 +252,24 @@ impl CelsData<RawPixels> {
             data: Vec::with_capacity(self.data.len()),
             num_frames,
         };
-        // Mapping from CelId -> bool. True if the cel can be used as a target
-        // for a linked cel. That means it must exist, and it must hold data of
-        // its own (an image or a tilemap), i.e., not be a linked cel itself.
-        // We copy it out here, so we can consume the actual data in the
-        // validation/transformation step.
-        let mut is_linkable_cel: Vec<bool> = Vec::with_capacity(num_frames as usize * num_layers);
-        for frame in 0..num_frames {
-            for layer in 0..num_layers {
-                let cel_id = CelId {
-                    frame: frame as u16,
-                    layer: layer as u32,
-                };
-                is_linkable_cel.push(self.cel(cel_id).map_or(false, |c| !c.content.is_linked()));
-            }
-        }
+        // The cels that can be used as a target for a linked cel: such a cel
+        // must exist, and it must hold data of its own (an image or a
+        // tilemap), i.e., not be a linked cel itself. We copy this out here,
+        // so we can consume the actual data in the validation/transformation
+        // step.
+        let linkable_cels: Vec<BTreeSet<u32>> = self
+            .data
+            .iter()
+            .map(|cels| {
+                let linkable = cels.iter().filter(|(_, c)| !c.content.is_linked());
+                linkable.map(|(layer, _)| *layer).collect()
+            })
+            .collect();
         let validate_ref = |id: CelId| {
             // The linked frame comes straight from the file: check it before
             // using it as an index.
             let in_bounds = (id.frame as u32) < num_frames && (id.layer as usize) < num_layers;
-            let index = id.frame as usize * num_layers + id.layer as usize;
-            if in_bounds && is_linkable_cel[index] {
+            if in_bounds && linkable_cels[id.frame as usize].contains(&id.layer) {
                 Ok(())
             } else {
                 Err(AsepriteParseError::InvalidInput(format!(
@@ -302,26 +281,23 @@ impl CelsData<RawPixels> {
 
         // Validate and transform each cel. Consumes input arrays.
         for (frame, cels_by_layer) in self.data.into_iter().enumerate() {
-            result.data.push(Vec::with_capacity(cels_by_layer.len()));
-            for (layer, opt_cel) in cels_by_layer.into_iter().enumerate() {
-                let cel = if let Some(cel) = opt_cel {
-                    let cel_id = CelId {
-                        frame: frame as u16,
-                        layer: layer as u32,
-                    };
-                    Some(Box::new(cel.validate(
-                        cel_id,
-                        layers,
-                        tilesets,
-                        pixel_format,
-                        palette.clone(),
-                        &validate_ref,
-                    )?))
-                } else {
-                    None
+            let mut validated = BTreeMap::new();
+            for (layer, cel) in cels_by_layer {
+                let cel_id = CelId {
+                    frame: frame as u16,
+                    layer,
                 };
-                result.data[frame].push(cel);
+                let cel = cel.validate(
+                    cel_id,
+                    layers,
+                    tilesets,
+                    pixel_format,
+                    palette.clone(),
+                    &validate_ref,
+                )?;
+                validated.insert(layer, cel);
             }
+            result.data.push(validated);
         }
 
         Ok(result)
